@@ -102,3 +102,55 @@ func VerifH_C17_cookie_on_real_handshake() {
 	verif.Assert(strings.HasPrefix(sc, "sess="+c.sid), "the handshake response carries the session cookie")
 	verif.Assert(rec.count("initial_headers") == 1 && rec.count("headers") == 1, "initial_headers and headers fire once for the handshake response")
 }
+
+// VerifH_C17_overlapping_handshakes: two clients' handshakes overlap -- the second one runs
+// completely at some yield point inside the first one (another request goroutine): each
+// handshake response still carries exactly its OWN session's id in Set-Cookie, with the
+// configured attributes.
+func VerifH_C17_overlapping_handshakes() {
+	opts := config.DefaultServerOptions()
+	ck := &http.Cookie{Name: "sess", Path: "/p", MaxAge: 60}
+	opts.SetCookie(ck)
+	ps := newProtoServer(opts)
+	ctxA, _ := newCtx("GET", "/engine.io/")
+	ctxA.Query().Set("transport", transports.POLLING)
+	ctxA.Query().Set("EIO", "4")
+	ctxB, _ := newCtx("GET", "/engine.io/")
+	ctxB.Query().Set("transport", transports.POLLING)
+	ctxB.Query().Set("EIO", "4")
+	overlapped := false
+	armed := false
+	ps.onMade = func(f *fakeTransport) {
+		if armed {
+			return
+		}
+		armed = true
+		verif.Event("another client's handshake runs meanwhile", func() {
+			overlapped = true
+			ps.Handshake(transports.POLLING, ctxB)
+		})
+		verif.InjectBudget(1)
+	}
+	_, tr := ps.Handshake(transports.POLLING, ctxA)
+	verif.InjectBudget(0)
+	verif.Assume(tr != nil)
+	if !overlapped {
+		ps.Handshake(transports.POLLING, ctxB)
+	}
+	verif.Assert(len(ps.made) == 2, "two sessions")
+	if len(ps.made) != 2 {
+		return
+	}
+	for i, f := range ps.made {
+		req := ctxA
+		if i == 1 {
+			req = ctxB
+		}
+		headers := utils.NewParameterBag(map[string][]string{"Content-Type": {"text/plain; charset=UTF-8"}})
+		f.Emit("headers", headers, req) // the transport answers the handshake request
+		sc := headers.Peek("Set-Cookie")
+		verif.Assert(strings.HasPrefix(sc, "sess="+f.Sid()+";") || sc == "sess="+f.Sid(), "each handshake response carries its own session's id in Set-Cookie")
+		verif.Assert(strings.Contains(sc, "; Path=/p") && strings.Contains(sc, "; Max-Age=60"), "with the configured attributes")
+	}
+	verif.Assert(ps.made[0].Sid() != ps.made[1].Sid(), "different sessions")
+}
